@@ -365,7 +365,11 @@ func RunCheck(propID, tier string) int {
 	if p.Finish != nil {
 		p.Finish(m)
 	}
-	return conclude(p, m, nsh, t0)
+	rc := conclude(p, m, nsh, t0)
+	if rc == 0 {
+		os.RemoveAll(work) // nothing to investigate: do not keep worker logs (disk space)
+	}
+	return rc
 }
 
 func mergeResult(m *Merged, r Result) {
